@@ -18,8 +18,38 @@ KANI = {
 }
 
 
+_B3 = 'slice length <= 3 words, full 64-bit symbolic words'
+KANI['int_add_w'] = {
+    'package': 'dashu-int', 'target': 'integer/src/add.rs', 'file': 'int_add_w.rs',
+    'harnesses': {
+        'vk_int_add_w_add_one': {'kind': 'bounded', 'bound': _B3},
+        'vk_int_add_w_sub_one': {'kind': 'bounded', 'bound': _B3},
+        'vk_int_add_w_add_word_dword': {'kind': 'bounded', 'bound': _B3},
+        'vk_int_add_w_sub_word_dword': {'kind': 'bounded', 'bound': _B3},
+        'vk_int_add_w_add_sub_in_place': {'kind': 'bounded', 'bound': _B3},
+        'vk_int_add_w_same_len': {'kind': 'bounded', 'bound': _B3},
+        'vk_int_add_w_sub_with_sign': {'kind': 'bounded', 'bound': _B3},
+    },
+}
+# Verus function -> (kani group, harness) able to produce a concrete failing input for it (used by ./check to
+# attach a replayable counterexample to a failed Verus obligation)
+WITNESS = {
+    'add_one_in_place': ('int_add_w', 'vk_int_add_w_add_one'),
+    'sub_one_in_place': ('int_add_w', 'vk_int_add_w_sub_one'),
+    'add_word_in_place': ('int_add_w', 'vk_int_add_w_add_word_dword'),
+    'add_dword_in_place': ('int_add_w', 'vk_int_add_w_add_word_dword'),
+    'sub_word_in_place': ('int_add_w', 'vk_int_add_w_sub_word_dword'),
+    'sub_dword_in_place': ('int_add_w', 'vk_int_add_w_sub_word_dword'),
+    'add_in_place': ('int_add_w', 'vk_int_add_w_add_sub_in_place'),
+    'sub_in_place': ('int_add_w', 'vk_int_add_w_add_sub_in_place'),
+    'add_same_len_in_place': ('int_add_w', 'vk_int_add_w_same_len'),
+    'sub_same_len_in_place': ('int_add_w', 'vk_int_add_w_same_len'),
+    'sub_same_len_in_place_swap': ('int_add_w', 'vk_int_add_w_same_len'),
+    'sub_in_place_with_sign': ('int_add_w', 'vk_int_add_w_sub_with_sign'),
+}
+
 PROP_UNITS = {
-    'C01': {'verus': ['int_prim', 'int_add'], 'kani': ['int_math'],
+    'C01': {'verus': ['int_prim', 'int_add'], 'kani': ['int_math', 'int_add_w'],
             'undecided': ['pow_large_base, mul_large/square_large glue, Memory scratch allocator',
                           'Repr-level dispatch (add_ops/mul_ops::repr) until its unit lands']},
     'C13': {'verus': ['int_modadd'],
